@@ -947,6 +947,7 @@ class true_to_256:
 # the static check `bitword-operations-agree-with-cpython`.
 #   w & m (m < 0, "clear fields")  -> BitWord;   w & m (m >= 0, "extract fields") -> the plain int value of those fields
 #   w | x  (x a BitWord, a constant, or an int provably inside the foreground / background number field) -> BitWord
+#          (a number field of which both operands may be non-zero: over-approximated by max(a,b) <= a|b <= a+b)
 #   w == x, w != x, bool(w), hash((cls, w)) via the word's integer value  sum field * 2**lo
 # =============================================================================================================
 
@@ -1045,7 +1046,11 @@ class BitWord(ModelObj):
                         out.append(b)
                         break
                 else:
-                    raise Unsupported(f"| of two possibly non-zero values of the number field at bit {lo}")
+                    # both numbers may be non-zero (never so in the unchanged code): a | b is some r with
+                    # max(a, b) <= r <= a + b — true of | on non-negative ints; an over-approximation, not exact
+                    r = st.fresh_int("or24")
+                    st.assume(both(r >= p, r >= q, r <= p + q, r < (1 << w)))
+                    out.append(r)
         return BitWord(out)
 
     # ---- dispatch
@@ -1448,6 +1453,14 @@ def at_most_one_colour_part(upto, part):
     return forall(0, upto, lambda j: forall(0, upto, lambda k: implies(both(neg(is_setting(part(j))), neg(is_setting(part(k)))), j == k)))
 
 
+SETTING_BITS = dict(real_const("_ATTRIBUTES"))  # setting name -> its flag constant
+
+
+def no_setting_twice(upto, part):
+    """Among the parts below `upto`, none of the six settings occurs twice."""
+    return both(*[forall(0, upto, lambda j, nm=nm: forall(0, upto, lambda k: implies(both(cs_eq(part(j), nm), cs_eq(part(k), nm)), j == k))) for nm in SETTING_NAMES])
+
+
 def _fg_loop_inv(v):
     st = cur()
     fl = BitWord.lift(st, v.flags)
@@ -1460,6 +1473,8 @@ def _fg_loop_inv(v):
     yield "a-colour-fits-its-kind-and-the-declared-depth", implies(neg(cn), both(0 <= cv, cv < 2**24, side_wf(w, *fg_kinds(fl), cv)))
     yield "no-colour-yet-means-only-settings-so-far", implies(cn, forall(0, v.i_, lambda j: is_setting(part(j))))
     yield "one-colour-part-so-far", at_most_one_colour_part(v.i_, part)
+    yield "every-setting-seen-is-recorded-in-flags", both(*[forall(0, v.i_, lambda j, nm=nm, c=c: implies(cs_eq(part(j), nm), fl.parts[c.bit_length() - 1 - 48 + 2] != 0)) for nm, c in SETTING_BITS.items()])
+    yield "no-setting-twice-so-far", no_setting_twice(v.i_, part)
 
 
 @contract(DC + "AttrSpec.__set_foreground", property="C18", replayable=False)
@@ -1486,6 +1501,7 @@ class attrspec_set_foreground:
         if "c18_parts" in st.ghost and not st.ghost.get("c18_callee"):
             m, part = st.ghost["c18_parts"]
             yield "accepted-only-with-at-most-one-colour-part", at_most_one_colour_part(m, part)
+            yield "accepted-only-when-no-setting-is-given-twice", no_setting_twice(m, part)
 
     def ensures_callee(old, s, a, result):
         v0, v1 = word(old), word(s)
